@@ -5,3 +5,12 @@ package files
 // Verification hooks (build tag `verif`).
 
 func VerifPathMatches(target string, pattern string) bool { return pathMatches(target, pattern) }
+
+// VerifState exposes the in-memory output stream to the correspondence check: a copy of the
+// bytes written so far, the capacity of the backing array and the write position.
+func (ms *MemoryStream) VerifState() ([]byte, int, int) {
+	return append([]byte{}, ms.contents...), cap(ms.contents), ms.pos
+}
+
+// VerifStream returns the destination of a writer (a *MemoryStream for WriterFromMemory).
+func (vw *Writer) VerifStream() WriteSeekCloser { return vw.contents }
